@@ -15,6 +15,9 @@ def run(ctx):
     for p in paths:
         mode = p[0].get("mode", "flv")
         scen.append({"sc": len(scen), "kind": "session", "mode": mode, "steps": p})
+        if mode != "file":
+            # the same session through lal's asynchronous write queue, the peer reading only after everything is queued
+            scen.append({"sc": len(scen), "kind": "session", "mode": mode, "steps": p, "queued": True})
         for a in p:
             if a["name"] == "Tag":
                 tagset[(a["t"], a["n"], tuple(a["ts"]))] = a
